@@ -3,7 +3,7 @@ From Coq Require Import List ZArith NArith Bool.
 From Common Require Import Base.
 From Arith Require Import Model.
 From Opt Require Import Generic Model Proofs.
-From GoSub Require Import Model Proofs.
+From GoSub Require Import Model Proofs Stmt StmtProofs StmtMain.
 Import ListNotations.
 Open Scope Z_scope.
 
@@ -53,4 +53,33 @@ Example C01_nonvacuous :
   vm_result Strict I8 [(x_, 100); (y_, 2)] e_demo = GOk 85 /\
   well_typed I8 [(x_, 100); (y_, 0)] e_demo = true /\ go_eval I8 [(x_, 100); (y_, 0)] e_demo = GPanic /\
   vm_result Dynamic I8 [(x_, 100); (y_, 0)] e_demo = GPanic.
+Proof. repeat split; vm_compute; reflexivity. Qed.
+
+(* ---------------- statements ---------------- *)
+(* the full statement for core statements: every guarded program, if/else included *)
+Definition C01_stmt_statement : Prop :=
+  forall m k en p, guarded k en p = true -> whole_ok m k en p.
+
+(* Straight-line core programs (x := e, x = e, x op= e, x++ / x--, fmt.Println(e), sequencing) over any integer kind,
+   in every type mode, from any environment of in-range variables: the code the compiler emits (let markers,
+   Load/arith/SymbolCreate/Store/DropToMarker, the native print), run by the VM model from its first instruction with
+   enough fuel, ends normally with exactly Go's final environment and Go's printed values, the stack empty again - or stops
+   with division by zero, having printed what Go printed, exactly when Go panics.  Guard: Go's typing, no literal on the
+   right of := / = (recorded finding: dynamic mode retypes the variable), names fresh / declared. *)
+Theorem C01_stmt_compile_correct_partial : forall m k en p,
+  no_if p = true -> guarded k en p = true -> whole_ok m k en p.
+Proof. exact stmt_compile_correct_noif. Qed.
+
+Definition a_ : str := [97%N].
+Definition p_demo : stmt :=
+  SSeq (SDecl y_ (EBin BAdd (EVar x_) (EVar a_)))
+  (SSeq (SOpAssign BMul y_ (EConst 3))
+  (SSeq (SIncDec true y_)
+  (SSeq (SPrint (EBin BSub (EVar y_) (EConst 1)))
+  (SSeq (SOpAssign BDiv y_ (EVar a_)) (SPrint (EVar y_)))))).
+Example C01_stmt_nonvacuous :
+  no_if p_demo = true /\ guarded I8 [(x_, 100); (a_, 3)] p_demo = true /\
+  go_result I8 [(x_, 100); (a_, 3)] p_demo = [53; 18; 0] /\ vm_exec Strict I8 [(x_, 100); (a_, 3)] p_demo = [53; 18; 0] /\
+  guarded I8 [(x_, 100); (a_, 0)] p_demo = true /\
+  go_result I8 [(x_, 100); (a_, 0)] p_demo = [44; 1] /\ vm_exec Dynamic I8 [(x_, 100); (a_, 0)] p_demo = [44; 1].
 Proof. repeat split; vm_compute; reflexivity. Qed.
